@@ -153,6 +153,15 @@ def cases(tier, rng):
                 # one case per (text, cursor): every op applied from a fresh init
                 yield {"text": text, "cur": cur, "fresh": True, "ops": ops}
     yield from e2e_cases(rng, 300 if tier == "quick" else 5000)
+    # case-transform commands on words whose case mapping changes the length (sharp s)
+    case_ops = [[w, a] for w in ("uw", "lw", "cw") for a in (1, 2, 3)]
+    for n in range(1, (4 if tier == "quick" else 6) + 1):
+        for tup in itertools.product(["\u00df", "a", " ", "\n"], repeat=n):
+            text = "".join(tup)
+            if "\u00df" not in text:
+                continue
+            for cur in range(n + 1):
+                yield {"text": text, "cur": cur, "fresh": True, "ops": case_ops}
     nrand = 3000 if tier == "quick" else 60000
     for _ in range(nrand):
         n = rng.choice([0, 1, 2, 3, 5, 8, 13, 40])
@@ -458,7 +467,7 @@ def check_op(text, cur, op, b: Buffer, ret):
                 seg = after[:j]
                 if nt.startswith(before) and nt.endswith(after[j:]) and len(nt) >= len(before) + len(after) - j:
                     mid = nt[len(before): len(nt) - (len(after) - j)]
-                    if mid.lower() == seg.lower() or mid == f(seg):
+                    if mid.casefold() == seg.casefold() or mid == f(seg):
                         ok = True
                         break
         if not ok:
